@@ -497,6 +497,7 @@ def check_adjust(ctx):
             ctx.tie_fail("adjust_fcst_for_crps raises where the model returns a value", desc, str(impl[1])[:200], str(m)[:200])
         return
     _, _, got = lines_of(impl[1], sizes)
+    near_tie = [False] * len(labs)
     # ---- predicates between public calls: which candidate must have been returned
     if not any(flagged):
         for lb, pl, g in zip(labs, plines, got):
@@ -510,7 +511,7 @@ def check_adjust(ctx):
         sc = crps_of(env[1], obs, sizes, add, ffm, im, extra=["cdf_type"]) if env[0] == "ok" else ("err", None)
         if sc[0] == "ok":
             order = ["original", "upper", "lower"]
-            for lb, pl, g, fl in zip(labs, plines, got, flagged):
+            for ci, (lb, pl, g, fl) in enumerate(zip(labs, plines, got, flagged)):
                 sel = dict(zip(dims, lb))
                 if not fl:
                     want, which = pl, "original (not flagged)"
@@ -529,6 +530,7 @@ def check_adjust(ctx):
                             break
                         # first maximal candidate wins a tie (exact ties only)
                         exact_ties = [k for t, k in fin if t == best]
+                        near_tie[ci] = len(ties) > len(exact_ties)
                         if len(exact_ties) > 1 and not same_line(g, [F(v) for v in cand[exact_ties[0]]]) and \
                                 not any(same_line(cand[exact_ties[0]], [F(v) for v in cand[k]]) for k in exact_ties[1:]):
                             ctx.violation("adjust_fcst_for_crps breaks a CRPS tie in the wrong order (documented: original, then upper, then lower)",
@@ -551,13 +553,52 @@ def check_adjust(ctx):
             if not (np.isnan(y) or x >= y - 1e-12):
                 ctx.violation("adjust_fcst_for_crps lowers the CRPS of a forecast case", {**desc, "case": sel}, f">= {y}", x)
                 break
-    # ---- tie
+    # ---- tie (a case whose best CRPS values agree to 1e-12 without being bit-equal is decided by binary64 rounding in the
+    # implementation and by exact arithmetic in the model: such near ties are not compared)
     if core.is_err(m):
         ctx.tie_fail("adjust_fcst_for_crps returns a value where the model raises", desc, "value", m)
         return
-    bad = cmp_lines(impl[1], sizes, m)
-    if bad:
-        ctx.tie_fail("adjust_fcst_for_crps differs from the model", {**desc, "case": bad[0]}, bad[1], bad[2])
+    for lb, g, ml, nt in zip(labs, got, m, near_tie):
+        if nt:
+            ctx.count("adjust:near_tie_not_compared")
+            continue
+        q = core.dec_nums(ml)
+        if not core.close_list(g, q):
+            ctx.tie_fail("adjust_fcst_for_crps differs from the model", {**desc, "case": dict(zip(dims, lb))}, g, [str(x) for x in q])
+            break
+
+
+TIE_CORPUS = [
+    # exact CRPS ties between different candidates (trapz on dyadic data: ties are bit-exact); documented order original, upper, lower
+    dict(line=[1.0, 0.0, 0.0], obs=1.5, expect="original"),          # original = upper > lower
+    dict(line=[0.25, 0.5, 0.0], obs=1.5, expect="original"),         # original = lower > upper
+    dict(line=[0.5, 0.0, 1.0, 0.5], obs=2.0, expect="upper"),        # upper = lower > original
+    dict(line=[1.0, 0.5, 0.5, 0.0], obs=2.0, expect="original"),     # three-way tie
+]
+
+
+def corpus(ctx):
+    import scores.probability as P
+    for k in TIE_CORPUS:
+        n = len(k["line"])
+        fc = xr.DataArray([k["line"]], dims=["s", TD], coords={"s": [0], TD: [float(i) for i in range(n)]})
+        ob = xr.DataArray([k["obs"]], dims=["s"], coords={"s": [0]})
+        r = core.call_impl(P.adjust_fcst_for_crps, fc, TD, ob, integration_method="trapz")
+        env = C().cdf_envelope(fc, TD)
+        want = [float(v) for v in env.sel(cdf_type=k["expect"]).values[0]]
+        got = [float(v) for v in r[1].transpose("s", TD).values[0]] if r[0] == "ok" else r[1]
+        ctx.case(("tie_corpus", str(k)))
+        ctx.count("adjust:tie_corpus")
+        if got != want:
+            ctx.violation("adjust_fcst_for_crps breaks a CRPS tie in the wrong order (documented: original, then upper, then lower)",
+                          {"fcst": k["line"], "thresholds": list(range(n)), "obs": k["obs"], "integration_method": "trapz"}, {k["expect"]: want}, got)
+
+
+def replay(ctx, obj):
+    """re-run the generation that produced the replay file: every case derives from the recorded seed and tier"""
+    ctx.rng.seed(obj.get("seed", ctx.seed))
+    ctx.tier = obj.get("tier", ctx.tier)
+    run(ctx)
 
 
 def sweep(ctx):
@@ -582,6 +623,7 @@ def sweep(ctx):
 
 
 def run(ctx):
+    corpus(ctx)
     sweep(ctx)
     n = ctx.n(70, 1500)
     for i in range(n):
